@@ -89,7 +89,7 @@ theorem parseStep_data (c : PCfg) (s : PState) (r : Raw) (hp : r.cmd ≠ bPing) 
     parseStep c s r =
       (s, if c.filterCmd r.cmd then POut.skip
           else if r.cmd = bPublish ∧ (r.args.head?.map lower) = some bSentinelHello then POut.skip
-          else if s.bypass then POut.skip
+          else if s.bypass ∧ r.cmd ≠ bMulti ∧ r.cmd ≠ bExec then POut.skip
           else match c.filterCmdKey r.cmd r.args with
             | none => POut.skip
             | some a => POut.emit { cmd := r.cmd, args := a, offset := r.off, db := s.currentDB }) := by
